@@ -1,5 +1,5 @@
-"""C19 -- chain tracing.  Deductive: ribana.get_nn_dist (nearest admissible candidate of a radius query).  trace_chains as a whole
-(four mutually dependent relabelling branches over data-dependent pandas state) is out of deductive reach: bounded stand-in."""
+"""C19 -- chain tracing.  Deductive: ribana.get_nn_dist (nearest admissible candidate of a radius query), add_chain_suffix and
+add_chain_prefix (chain invariant over position-function tables).  The main loop of trace_chains is out of deductive reach: bounded."""
 import z3
 from vfw import sym
 from vfw.sym import SV, SB, ctx, Unsupported
@@ -49,13 +49,218 @@ class GetNNDist(Contract):
         return r.replay_zero_distance()
 
 
-CONTRACTS = [GetNNDist]
+from vfw.models import ptable
+
+TCOLS = ["subtomo_id", "object_id", "geom2", "geom4"]
+
+
+class _MotlStub:
+    """motl.df.loc[motl.df.index[k], "subtomo_id"]: the subtomogram number of the k-th particle of the tomogram's list"""
+
+    def __init__(self, pid):
+        self.pid = pid
+        self.df = self
+
+    @property
+    def index(self):
+        return self
+
+    def __getitem__(self, k):
+        return ("label", k)
+
+    @property
+    def loc(self):
+        stub = self
+
+        class L:
+            def __getitem__(self, key):
+                if isinstance(key, tuple) and key[1] == "subtomo_id" and isinstance(key[0], tuple) and key[0][0] == "label":
+                    return stub.pid
+                raise Unsupported("motl.df.loc form")
+        return L()
+
+
+def _chain_tables(cx, fresh_chain=True):
+    """pre-state of a merge step: the table T of chains traced so far satisfies the chain invariant, the new chain C (class c_new, not
+    used in T) carries orders 1..m in row order, the particle the new chain connects to is a row of T, subtomogram numbers are unique"""
+    T = ptable.PTable(TCOLS, "T_", int_cols=("subtomo_id", "object_id", "geom2"))
+    C = ptable.PTable(TCOLS, "C_", int_cols=("subtomo_id", "object_id", "geom2"))
+    N, m = sym.to_z3(T.n), sym.to_z3(C.n)
+    cnew, pid = z3.Int("c_new"), z3.Int("particle_id")
+    i, j = z3.Ints("i!pre j!pre")
+    tc, to, ts = T.fn["object_id"], T.fn["geom2"], T.fn["subtomo_id"]
+    cc, co = C.fn["object_id"], C.fn["geom2"]
+    pred = z3.Function("pred_row", z3.IntSort(), z3.IntSort())
+    p0 = z3.Int("particle_row")
+    cx.assume(z3.And(m >= 1, N >= 1))
+    cx.assume(z3.ForAll([i], z3.Implies(z3.And(i >= 0, i < N), z3.And(to(i) >= 1, tc(i) != cnew, tc(i) >= 1))))  # object numbers are positive (trace_chains counts from 1)
+    cx.assume(cnew >= 1)
+    cx.assume(z3.ForAll([i, j], z3.Implies(z3.And(i >= 0, i < N, j >= 0, j < N, i != j), z3.And(ts(i) != ts(j), z3.Implies(tc(i) == tc(j), to(i) != to(j))))))
+    cx.assume(z3.ForAll([i], z3.Implies(z3.And(i >= 0, i < N, to(i) > 1), z3.And(pred(i) >= 0, pred(i) < N, tc(pred(i)) == tc(i), to(pred(i)) == to(i) - 1))))
+    if fresh_chain:
+        cx.assume(z3.ForAll([j], z3.Implies(z3.And(j >= 0, j < m), z3.And(cc(j) == cnew, co(j) == j + 1))))
+    cx.assume(z3.And(p0 >= 0, p0 < N, ts(p0) == pid))
+    return T, C, {"pred": pred, "N": N, "m": m, "cnew": cnew, "pid": pid, "p0": p0, "tc": tc, "to": to, "ts": ts, "td": T.fn["geom4"], "cc": cc, "co": co, "cd": C.fn["geom4"]}
+
+
+def _chain_invariant(tables, witnesses):
+    """the chain invariant over the union of the given tables [(class fn, order fn, size)]: orders >= 1, no two rows of one chain
+    share an order number, every row with order > 1 has a predecessor in its chain -- i.e. every chain carries exactly 1..k.
+    witnesses[a](i) lists candidate predecessor rows (table index, row term) of row i of table a (the existential is proved by exhibiting one)"""
+    out = []
+    for a, (ca, oa, na) in enumerate(tables):
+        i = z3.Int(f"i!inv{a}")
+        out.append((f"orders_start_at_one[{a}]", z3.ForAll([i], z3.Implies(z3.And(i >= 0, i < na), oa(i) >= 1))))
+        for b, (cb, ob, nb) in enumerate(tables):
+            j = z3.Int(f"j!inv{a}{b}")
+            if b >= a:
+                distinct = z3.And(i >= 0, i < na, j >= 0, j < nb, ca(i) == cb(j)) if a != b else z3.And(i >= 0, i < na, j >= 0, j < nb, i != j, ca(i) == cb(j))
+                out.append((f"no_two_members_of_a_chain_share_an_order_number[{a}{b}]", z3.ForAll([i, j], z3.Implies(distinct, oa(i) != ob(j)))))
+        ex = []
+        for b, w in witnesses[a](i):
+            cb, ob, nb = tables[b]
+            ex.append(z3.And(w >= 0, w < nb, cb(w) == ca(i), ob(w) == oa(i) - 1))
+        out.append((f"every_member_beyond_the_first_has_a_predecessor[{a}]", z3.ForAll([i], z3.Implies(z3.And(i >= 0, i < na, oa(i) > 1), z3.Or(*ex)))))
+    return out
+
+
+class AddChainSuffix(Contract):
+    """add_chain_suffix: attach the new chain behind a particle of an existing chain (cutting that chain's tail off when the new link is shorter)"""
+    prop = "C19"
+    module = "ribana"
+    qual = "add_chain_suffix"
+
+    def bind(self, cx, cfg):
+        it = Interp("ribana", common.base_globals())
+        T, C, v = _chain_tables(cx)
+        dist = SV(z3.Real("current_dist"))
+        f = it.function("add_chain_suffix")
+        return (lambda: f(C, _MotlStub(SV(v["pid"])), T, SV(z3.Int("k")), dist)), {"T": T, "C": C, "v": v, "dist": dist.t}
+
+    def post(self, cx, cfg, inp, res):
+        T, C, v, d = inp["T"], inp["C"], inp["v"], inp["dist"]
+        N, m, p0 = v["N"], v["m"], v["p0"]
+        temp, oid, prev = sym.real(v["tc"](p0)), sym.real(v["to"](p0)), v["td"](p0)
+        i, j = z3.Ints("i!post j!post")
+        inT = lambda x: z3.And(x >= 0, x < N)
+        last = z3.ForAll([i], z3.Implies(z3.And(inT(i), v["tc"](i) == v["tc"](p0)), v["to"](i) <= v["to"](p0)))  # the particle is the last of its chain
+        if res is False or (isinstance(res, bool) and not res):
+            unchanged = all(not T.changed(c) for c in TCOLS) and all(not C.changed(c) for c in TCOLS)
+            return [("no_change_only_when_the_existing_link_is_at_least_as_short", z3.And(z3.Not(last), prev <= d), ()),
+                    ("nothing_changed", z3.BoolVal(bool(unchanged)))]
+        tc2, to2, td2, ts2 = T.cols["object_id"], T.cols["geom2"], T.cols["geom4"], T.cols["subtomo_id"]
+        cc2, co2 = C.cols["object_id"], C.cols["geom2"]
+        tail = lambda x: z3.And(z3.Not(last), sym.real(v["tc"](x)) == temp, sym.real(v["to"](x)) > oid)
+        cl = [("returns_true", z3.BoolVal(res is True)),
+              ("change_only_when_last_or_new_link_not_longer", z3.Or(last, prev >= d), ()),  # at equal distances either choice satisfies the property
+              ("new_chain_follows_the_particle_immediately", z3.ForAll([j], z3.Implies(z3.And(j >= 0, j < m), z3.And(cc2(j) == temp, co2(j) == oid + j + 1))), ()),
+              ("link_distance_recorded_at_the_particle", td2(p0) == d, ()),
+              ("cut_off_tail_keeps_its_internal_order_under_the_new_chains_number", z3.ForAll([i], z3.Implies(z3.And(inT(i), tail(i)), z3.And(tc2(i) == v["cnew"], to2(i) == sym.real(v["to"](i)) - oid))), ()),
+              ("all_other_rows_unchanged", z3.ForAll([i], z3.Implies(z3.And(inT(i), z3.Not(tail(i))), z3.And(tc2(i) == sym.real(v["tc"](i)), to2(i) == sym.real(v["to"](i)), z3.Or(i == p0, td2(i) == v["td"](i))))), ()),
+              ("subtomogram_numbers_and_other_distances_untouched", z3.ForAll([i], z3.Implies(inT(i), z3.And(ts2(i) == sym.real(v["ts"](i)), z3.Implies(i != p0, td2(i) == v["td"](i))))), ()),
+              ("new_chain_keeps_its_own_distances", z3.BoolVal(not C.changed("geom4") and not C.changed("subtomo_id")))]
+        wit = {0: lambda x: [(0, v["pred"](x))], 1: lambda x: [(1, x - 1), (0, p0)]}
+        cl += [(n, g, ()) for n, g in _chain_invariant([(tc2, to2, N), (cc2, co2, m)], wit)]
+        return cl
+
+    def cross(self, cfg, paths):
+        kinds = [out[1] for cx, inputs, out in paths if out[0] == "return"]
+        return [("all_three_outcomes_reachable", [], z3.BoolVal(kinds.count(False) >= 1 and kinds.count(True) >= 2))]
+
+    def replay(self, clause, model, cfg):
+        from rtc import c19 as r
+        return r.replay_scenarios()
+
+
+class AddChainPrefix(Contract):
+    """add_chain_prefix: attach the new chain in front of a particle Q of an existing chain (cutting that chain's head off when Q is not its
+    first member and the new link is shorter).  Two call forms: the new chain only (class_max None) and the chain that has just been attached
+    behind another chain P by add_chain_suffix (class_max = (its last order number, an unused object number))"""
+    prop = "C19"
+    module = "ribana"
+    qual = "add_chain_prefix"
+    configs = [{"form": "append_only"}, {"form": "both_sides"}]
+
+    def cfg_name(self, cfg):
+        return cfg["form"]
+
+    def bind(self, cx, cfg):
+        it = Interp("ribana", common.base_globals())
+        T, C, v = _chain_tables(cx, fresh_chain=(cfg["form"] == "append_only"))
+        dist = SV(z3.Real("current_dist"))
+        f = it.function("add_chain_prefix")
+        kw = {}
+        if cfg["form"] == "both_sides":
+            # C was attached behind the last member (order `base`) of chain cP: its rows carry cP and the orders base+1..base+m
+            N, m = v["N"], v["m"]
+            cP, base, fresh, pP = z3.Int("class_P"), z3.Int("base"), z3.Int("fresh_class"), z3.Int("row_P")
+            i, j = z3.Ints("i!b j!b")
+            cx.assume(z3.And(base >= 1, pP >= 0, pP < N, v["tc"](pP) == cP, v["to"](pP) == base, fresh != cP, fresh >= 1, v["tc"](v["p0"]) != cP))
+            cx.assume(z3.ForAll([i], z3.Implies(z3.And(i >= 0, i < N), z3.And(v["tc"](i) != fresh, z3.Implies(v["tc"](i) == cP, v["to"](i) <= base)))))
+            cx.assume(z3.ForAll([j], z3.Implies(z3.And(j >= 0, j < m), z3.And(v["cc"](j) == cP, v["co"](j) == base + j + 1))))
+            v.update(cP=cP, base=base, fresh=fresh, pP=pP)
+            kw["class_max"] = (SV(base + m), SV(fresh))
+        return (lambda: f(C, _MotlStub(SV(v["pid"])), T, SV(z3.Int("k")), dist, **kw)), {"T": T, "C": C, "v": v, "dist": dist.t}
+
+    def post(self, cx, cfg, inp, res):
+        T, C, v, d = inp["T"], inp["C"], inp["v"], inp["dist"]
+        N, m, q0 = v["N"], v["m"], v["p0"]
+        both = cfg["form"] == "both_sides"
+        ctc, oid = sym.real(v["tc"](q0)), sym.real(v["to"](q0))
+        i, j = z3.Ints("i!post j!post")
+        inT = lambda x: z3.And(x >= 0, x < N)
+        pq = v["pred"](q0)
+        first = v["to"](q0) == 1
+        if isinstance(res, int) and res == -1:
+            unchanged = all(not T.changed(c) for c in TCOLS) and all(not C.changed(c) for c in TCOLS)
+            return [("no_change_only_when_the_existing_link_is_at_least_as_short", z3.And(z3.Not(first), v["td"](pq) <= d), ()),
+                    ("nothing_changed", z3.BoolVal(bool(unchanged)))]
+        tc2, to2, td2, ts2 = T.cols["object_id"], T.cols["geom2"], T.cols["geom4"], T.cols["subtomo_id"]
+        cc2, co2, cd2 = C.cols["object_id"], C.cols["geom2"], C.cols["geom4"]
+        count_facts = [cnt.t == v["to"](q0) - 1 for mk, cnt in T.counts]  # counting lemma (assumed): a chain carrying exactly 1..k has t-1 members below t
+        head = lambda x: z3.And(z3.Not(first), sym.real(v["tc"](x)) == ctc, sym.real(v["to"](x)) < oid)
+        rest = lambda x: z3.And(sym.real(v["tc"](x)) == ctc, sym.real(v["to"](x)) >= oid)
+        clast = sym.real(v["co"](m - 1))                       # order of the new chain's last member (unchanged by the call)
+        newcls = sym.real(v["cP"]) if both else ctc               # the merged chain's number
+        headcls = sym.real(v["fresh"]) if both else sym.real(v["cnew"])
+        cl = [("returns_none", z3.BoolVal(res is None)),
+              ("change_only_when_first_or_new_link_not_longer", z3.Or(first, v["td"](pq) >= d), ()),
+              ("link_distance_recorded_at_the_new_chains_last_member", cd2(m - 1) == d, ()),
+              ("new_chain_keeps_its_orders_and_takes_the_merged_chains_number", z3.ForAll([j], z3.Implies(z3.And(j >= 0, j < m), z3.And(co2(j) == sym.real(v["co"](j)), cc2(j) == newcls))), ()),
+              ("Q_and_its_successors_follow_the_new_chain_immediately_in_order", z3.ForAll([i], z3.Implies(z3.And(inT(i), rest(i)), z3.And(tc2(i) == newcls, to2(i) == sym.real(v["to"](i)) - oid + clast + 1))), (), count_facts),
+              ("cut_off_head_keeps_its_orders_under_an_unused_number", z3.ForAll([i], z3.Implies(z3.And(inT(i), head(i)), z3.And(tc2(i) == headcls, to2(i) == sym.real(v["to"](i))))), (), count_facts),
+              ("all_other_rows_unchanged", z3.ForAll([i], z3.Implies(z3.And(inT(i), sym.real(v["tc"](i)) != ctc), z3.And(tc2(i) == sym.real(v["tc"](i)), to2(i) == sym.real(v["to"](i))))), (), count_facts),
+              ("subtomogram_numbers_and_recorded_distances_of_the_table_untouched", z3.BoolVal(not T.changed("subtomo_id") and not T.changed("geom4"))),
+              ("other_distances_of_the_new_chain_untouched", z3.ForAll([j], z3.Implies(z3.And(j >= 0, j < m - 1), cd2(j) == v["cd"](j))), ())]
+        # predecessor witnesses: T rows keep their old predecessor, except Q whose predecessor is the new chain's last member; C rows: previous row, row P for the first one
+        wit = {0: lambda x: [(0, v["pred"](x)), (1, m - 1)], 1: lambda x: [(1, x - 1)] + ([(0, v["pP"])] if both else [])}
+        cl += [(n, g, (), count_facts) for n, g in _chain_invariant([(tc2, to2, N), (cc2, co2, m)], wit)]
+        return cl
+
+    def cross(self, cfg, paths):
+        kinds = [out[1] for cx, inputs, out in paths if out[0] == "return"]
+        return [("all_outcomes_reachable", [], z3.BoolVal(kinds.count(-1) >= 1 and kinds.count(None) >= 2))]
+
+    def replay(self, clause, model, cfg):
+        from rtc import c19 as r
+        return r.replay_scenarios()
+
+
+CONTRACTS = [GetNNDist, AddChainSuffix, AddChainPrefix]
 LEVEL = "other"
 EXPLANATION = ("get_nn_dist is proved (quantified obligations over the sorted radius-query contract and the boolean-mask selection contract) to return the nearest candidate with the requested activity flag and "
-               "distance in (dist_min, dist_max], with that distance, or -1 when none exists. trace_chains itself is checked only by the bounded run-time contract (the property verbatim on generated "
-               "entry/exit lists with dense clusters); that part is labelled bounded and never counted as proved.")
+               "distance in (dist_min, dist_max], with that distance, or -1 when none exists. add_chain_suffix and add_chain_prefix (both call forms) are proved on position-function tables to preserve the chain "
+               "invariant over the union of the traced table and the new chain (orders >= 1, no order number twice in a chain, every member beyond the first has a predecessor, i.e. every chain carries exactly 1..k), "
+               "to place the attached chain immediately behind / in front of the particle it connects to, to record the link distance, to keep the internal order of a cut-off tail / head under an unused object "
+               "number, and to leave every other cell unchanged; the no-change outcome occurs only when the existing link is at least as short. The main loop of trace_chains (which candidate is looked up, "
+               "which object numbers are unused at the two call sites, the assembly per tomogram) is checked only by the bounded run-time contract (the property verbatim) on random dense clusters and on "
+               "role-based arrangements that reach every branch; that part is labelled bounded and never counted as proved.")
 ASSUMPTIONS = ["sklearn KDTree.query_radius(sort_results=True) contract; numpy boolean-mask selection keeps order",
-               "trace_chains: no contract within reach (data-dependent merging/prefixing/cutting over pandas state) -- bounded only"]
+               "pandas semantics of the position-function table model (vfw/models/ptable.py): .loc[mask, cols] = v writes exactly the masked cells, .values[0] is the first masked row, np.max is attained and dominates, "
+               ".shape[0] counts the masked rows; counting lemma (assumed): a chain carrying exactly the orders 1..k has t-1 members with order < t",
+               "requires of add_chain_suffix / add_chain_prefix (established by trace_chains, not proved there): the traced table satisfies the chain invariant, subtomogram numbers are unique, the particle is a row of it, "
+               "object numbers are positive, the new chain's number (and class_max[1]) is not used in the table, the two chains of a two-sided connection differ",
+               "trace_chains main loop: no contract within reach (data-dependent merging over pandas state) -- bounded only"]
 
 
 def run(ck):
